@@ -265,7 +265,7 @@ def rand_query(rng, depth, nletters=2, maxlen=2, scored_only=False, boosts=True,
     op = rng.choice(comp)
     sub = lambda so=scored_only: rand_query(rng, depth - 1, nletters, maxlen, so, boosts, ops)
     if op in ("and", "or", "dismax"):
-        n = rng.choice([0, 1, 2, 2, 2, 3, 3, 4]) if not scored_only else rng.choice([2, 2, 3, 4])
+        n = rng.choice([0, 1, 2, 2, 2, 3, 3, 4]) if not scored_only else rng.choice([1, 2, 2, 3, 4])
         q = {"op": op, "kids": [sub() for _ in range(n)], "b4": b4}
         if op == "or" and rng.random() < 0.3:
             q["mtype"] = rng.choice([1, 3])
